@@ -100,9 +100,9 @@ func H17_configured_order() {
 	if err != nil || s == nil {
 		return
 	}
-	vAssert(len(s.endpoints) == n, "C17.every-configured-endpoint-kept")
-	for i := 0; i < n && i < len(s.endpoints); i++ {
-		vAssert(vEqString(s.endpoints[i], hosts[i]+":4443"), "C17.endpoints-in-configured-order")
+	vAssert(len(s.Endpoints()) == n, "C17.every-configured-endpoint-kept")
+	for i := 0; i < n && i < len(s.Endpoints()); i++ {
+		vAssert(vEqString(s.Endpoints()[i], hosts[i]+":4443"), "C17.endpoints-in-configured-order")
 	}
 	_, _, serr := s.Sign(context.Background(), &pb.SSHCertificateSigningRequest{})
 	vAssert(serr != nil, "C17.exhaustion-is-an-error")
